@@ -96,6 +96,11 @@ def havoc(I, node, fr, lc):
                 p = I.fresh_of_type("nat", "bio.pos")
                 o.fields["pos"] = p
             elif o.kind in ("list", "dict"):
+                # a local list declared symbolic in the loop contract (vars: name -> list[int]) becomes a symbolic list
+                nm = cexpr.id if isinstance(cexpr, ast.Name) else None
+                if o.kind == "list" and nm and str(decl.get(nm, "")).startswith("list[") and all(isinstance(x, (VInt, VBool)) for x in o.data):
+                    fr.locals[nm] = I.fresh_of_type(decl[nm], nm)
+                    continue
                 if (lc or {}).get("unroll") is None:
                     raise Unsupported("loop mutates a concrete %s; needs unrolling or a symbolic container" % o.kind)
     for g in (lc or {}).get("havoc_ghosts", []):
